@@ -3,7 +3,7 @@
    nat, positive, N, Z stay Coq datatypes. No Extract Constant / Extract Inductive here. *)
 From Coq Require Extraction.
 From Coq Require Import ExtrOcamlBasic.
-From Stef Require Import Bits BitIO Varint Codecs Schema Wire Apply Frame Reader Writer Source Cmp WireOk.
+From Stef Require Import Bits BitIO Varint Codecs Schema Wire Apply Frame Reader Writer Source Cmp WireOk StreamFactsBase.
 Extraction Language OCaml.
 Extraction "model.ml"
   column_bytes bits_of_bytes N_of_bits bits_of_N
@@ -17,4 +17,4 @@ Extraction "model.ml"
   parse_fixed_header parse_frame parse_data_frame parse_var_header parse_wire_schema
   emit_fixed_header emit_frame emit_var_header emit_wire_schema
   reader_open reader_read reader_next_frame frame_encode frame_encode_trace frame_check w_clear wst0 enc dec apply
-  read_once read_full cmp data.
+  read_once read_full cmp data stream_ok.
